@@ -319,6 +319,7 @@ fn differential(ctx: &mut Ctx, rng: &mut Rng, pairs: u64) {
                     c.invalidate_if(p);
                     String::new()
                 }
+                Op::ArmFault { .. } => String::new(),
                 Op::Advance { ns } => {
                     c.advance(ns);
                     String::new()
